@@ -260,6 +260,14 @@ def truth_of(ref, cols, listed, carried, aln, overhang=10):
             allele = 0
         if not mine or not all(i in kept for i in mine):
             continue
+        # the variant's own insertion / deletion columns must be flanked by aligned bases: an adjacent insertion or
+        # deletion of ANOTHER carried event merges into one CIGAR operation, and the indel is then not shown at the
+        # variant's normalised position any more (two events at one junction: no truth)
+        indel = [i for i in mine if cols[i][0] in "ID"]
+        if indel:
+            b0, b1 = min(indel) - 1, max(indel) + 1
+            if b0 < 0 or b1 >= len(cols) or cols[b0][0] in "ID" or cols[b1][0] in "ID" or b0 not in kept or b1 not in kept:
+                continue
         lo, hi = min(mine), max(mine)
         window = "clean"
         for step, first in ((-1, lo - 1), (1, hi + 1)):
